@@ -5,6 +5,7 @@ package c18
 
 import (
 	"fmt"
+	"strings"
 	"testing"
 
 	"pgregory.net/rapid"
@@ -216,16 +217,66 @@ func prop(c harness.Case) harness.Result {
 		}
 	}
 	opts := &cm.WalkOptions{}
+	// A callback may itself walk (here: the subtree of the node it is at) with
+	// the very same WalkOptions value; the options are configuration, the
+	// walk's position belongs to the walk. The inner walk makes the reference
+	// walker's number of callbacks with a consistent cursor of its own, and
+	// when it returns the outer callback's cursor still describes the outer node.
+	nestedAt := -1
+	if n, ok := c.I["nested"]; ok {
+		nestedAt = n
+	}
+	inNested, nestedCalls := false, 0
+	var nestedRoot cm.Node
+	nestedCheck := func(cur *cm.Cursor) {
+		nestedCalls++
+		if cursorErr != nil {
+			return
+		}
+		if cur.Node() == nestedRoot {
+			if cur.Parent() != (cm.Node{}) || cur.Index() >= 0 {
+				cursorErr = fmt.Errorf("nested walk: root cursor has parent=%s index=%d", name(cur.Parent()), cur.Index())
+			}
+			return
+		}
+		pv := *v
+		if cur.Index() < 0 || pv.child(cur.Parent(), cur.Index()) != cur.Node() {
+			cursorErr = fmt.Errorf("nested walk: Parent().Child(Index()) != Node() at %s", name(cur.Node()))
+		}
+	}
 	if !p.nilPre {
 		opts.Pre = func(cur *cm.Cursor) bool {
+			if inNested {
+				nestedCheck(cur)
+				return true
+			}
 			checkCursor(cur, false)
 			ord := pre
 			pre++
+			if ord == nestedAt {
+				before := event{false, cur.Node(), cur.Parent(), cur.Index(), cur.ParentBlock()}
+				nv := *v
+				wantNested := len(reference(&nv, cur.Node(), policy{prune: map[int]bool{}, abort: -1, nilPos: p.nilPos}))
+				inNested, nestedRoot, nestedCalls = true, cur.Node(), 0
+				cm.Walk(cur.Node(), opts)
+				inNested = false
+				after := event{false, cur.Node(), cur.Parent(), cur.Index(), cur.ParentBlock()}
+				if cursorErr == nil && after != before {
+					cursorErr = fmt.Errorf("after a nested Walk with the same WalkOptions the outer callback's cursor changed from %s to %s", before, after)
+				}
+				if cursorErr == nil && nestedCalls != wantNested {
+					cursorErr = fmt.Errorf("nested Walk at %s made %d callbacks, the reference walker %d", name(cur.Node()), nestedCalls, wantNested)
+				}
+			}
 			return !p.prune[ord]
 		}
 	}
 	if !p.nilPos {
 		opts.Post = func(cur *cm.Cursor) bool {
+			if inNested {
+				nestedCheck(cur)
+				return true
+			}
 			checkCursor(cur, true)
 			ord := post
 			post++
@@ -383,13 +434,64 @@ func genCase(t *rapid.T) harness.Case {
 	if rapid.Bool().Draw(t, "hasabort") {
 		c.SetI("abort", rapid.IntRange(0, maxOrd).Draw(t, "abort"))
 	}
+	if rapid.IntRange(0, 3).Draw(t, "nested?") == 0 {
+		c.SetI("nested", rapid.IntRange(0, 25).Draw(t, "nested"))
+	}
 	return c
 }
 
 const rule = "tree = Parse(G1/G2/G3 input), one root block, any inner node of it (block or inline) or a virtual root over all root blocks, x policy (set of Pre ordinals that prune, Post ordinal that aborts, nil Pre/Post, child-function view: defaults / identity / reversed / truncated / ChildCount only / Child only); one case in five is a tree that is deep (up to 48 nested containers, 40 nested inlines) or wide (up to 150 siblings) by construction; oracle = recursive reference walker's event list (kind, node, parent, index, enclosing block) plus cursor invariants; non-trivial = >= 10 callbacks and the policy prunes a node with children, aborts before the end, uses a virtual root or a non-identity view"
 
+// veryDeep: documents nested thousands of levels deep (the parser sets no
+// limit, so Walk has none either): block quotes, list items and both mixed,
+// under a handful of policies.
+func veryDeep(t *testing.T, plan harness.Plan) {
+	const name = "very_deep"
+	if harness.Cfg().Shard != 0 {
+		return
+	}
+	depths := []int{1000, 4096, 4200}
+	if harness.Cfg().Tier == "thorough" {
+		depths = []int{1000, 2047, 2048, 2049, 4095, 4096, 4097, 6000, 8200, 16500}
+	}
+	n := 0
+	for _, d := range depths {
+		docs := []string{strings.Repeat(">", d) + " a *b* c\n", strings.Repeat("- ", d/2) + "a `b`\n", strings.Repeat("> - ", d/3) + "# h\n"}
+		for _, doc := range docs {
+			for pi := 0; pi < 6; pi++ {
+				c := harness.Case{In: []byte(doc)}
+				c.SetI("mode", []int{0, 0, 1, 0, 0, 2}[pi])
+				switch pi {
+				case 1:
+					c.SetL("prune", []int{d - 3})
+				case 2:
+					c.SetI("abort", 2)
+				case 3:
+					c.SetI("nilpre", 1)
+				case 4:
+					c.SetI("nilpost", 1)
+					c.SetI("nested", d/2)
+				case 5:
+					c.SetI("virtual", 1)
+					c.SetI("abort", d)
+				}
+				res := prop(c)
+				n++
+				harness.Count(name, &c, true, fmt.Sprintf("depth_%d", d))
+				if res.Err != nil && harness.Fail(t, plan, name, c, res.Err) {
+					return
+				}
+			}
+		}
+	}
+	harness.SetExhaustive(name, fmt.Sprintf("%d (document, policy) pairs: block quotes, list items and both mixed, nested %v levels deep, under six policies", n, depths))
+}
+
 func TestProperty(t *testing.T) {
-	harness.Run(t, harness.Plan{Prop: "C18", Checks: []harness.Check{
+	plan := harness.Plan{Prop: "C18", Checks: []harness.Check{
 		{Name: "walk", Quick: 100000, Thorough: 1000000, Gen: genCase, Prop: prop, Rule: rule},
-	}})
+		{Name: "very_deep", Prop: prop, Rule: "enumerated: documents nested 1000, 4096 and 4200 levels deep (thorough: ten depths up to 16500, around 2048 and 4096) made of block quotes, of list items and of both, under six policies (full walk, prune near the bottom, early abort, nil Pre, nil Post with a nested walk half way down, virtual root with a late abort); oracle as for walk"},
+	}}
+	plan.After = func(t *testing.T) { veryDeep(t, plan) }
+	harness.Run(t, plan)
 }
